@@ -56,7 +56,11 @@ class Cell(NullCell):
             # prunned branch doesn't have refs
             if self.refs:
                 raise CellError('Pruned branch must not has refs')
-            return LevelMask(int(self.bits[8:16].to01(), 2))
+            mask = int(self.bits[8:16].to01(), 2)
+            # crypto/vm/cells/DataCell.cpp: type byte, level mask 1..7, then one hash per significant level, then one depth per significant level
+            if not 1 <= mask <= 7 or len(self.bits) != 16 + bin(mask).count('1') * (256 + 16):
+                raise CellError('Wrong level mask or data length for a pruned branch')
+            return LevelMask(mask)
         elif self.type_ == CellTypes.merkle_proof:
             # merkle proof cell has exactly one ref
             self._check_merkle_cell(1)
